@@ -59,6 +59,8 @@ func main() {
 	evlog := fs.Bool("evlog", false, "emit per-run event hashes")
 	bin := fs.String("bin", "", "plain binary")
 	racebin := fs.String("racebin", "", "race binary")
+	yieldbin := fs.String("yieldbin", "", "instrumented binary (yield point before every statement)")
+	yieldracebin := fs.String("yieldracebin", "", "instrumented race binary")
 	hang := fs.Float64("hang", 0, "seconds without progress before a worker is declared hung")
 
 	switch cmd {
@@ -104,7 +106,7 @@ func main() {
 			*bin = self
 		}
 		os.Exit(ctl.Orchestrate(ctl.OrchArgs{Prop: *prop, Tier: *tier, Seed: *seed, Budget: b, Workers: w,
-			Bin: *bin, RaceBin: *racebin, HangLimit: h, MaxRuns: *maxruns}))
+			Bin: *bin, RaceBin: *racebin, YieldBin: *yieldbin, YieldRaceBin: *yieldracebin, HangLimit: h, MaxRuns: *maxruns}))
 	case "worker":
 		fs.Parse(os.Args[2:])
 		mr := *maxruns
